@@ -129,8 +129,10 @@ def attr_step(op, version, name, kind, expect_success=False):
         """
         post: _
         """
-        if not (-2 <= index <= 3 and 0 <= nlist <= 3 and len(text) <= 2 and 0 <= form2 <= 1 and 0 <= cur_sel <= 3):
+        if not (-2 <= index <= 3 and 0 <= nlist <= 3 and len(text) <= 2 and 0 <= form2 <= 2 and 0 <= cur_sel <= 3):
             return True
+        if form2 == 2 and op != "DELETE_ATTRIBUTE":
+            return True               # both optional fields at once exist for DeleteAttribute only
         if empty_mask and name in LISTS:
             return True              # the falsy-current-value pre-state matters for single-valued attributes
         if v2 and (has_index or index):
@@ -161,9 +163,14 @@ def attr_step(op, version, name, kind, expect_success=False):
                     attribute_value=val)
                 payload = P.mk(op, "1", version=version, attribute=a)
         else:
-            form = "current" if form2 == 0 else "reference"
+            form = "current" if form2 in (0, 2) else "reference"
             if op == "DELETE_ATTRIBUTE":
-                if form == "current":
+                if form2 == 2:
+                    # Current Attribute AND Attribute Reference: the more specific one (the instance) is addressed
+                    payload = P.mk(op, "1", version=version, attr_value=current_value(name, before, cur_sel))
+                    payload.attribute_reference = cobjects.AttributeReference(
+                        vendor_identification="Acme", attribute_name=name)
+                elif form == "current":
                     payload = P.mk(op, "1", version=version, attr_value=current_value(name, before, cur_sel))
                 else:
                     payload = P.mk(op, "1", version=version, reference=True, attr_name=name)
@@ -285,7 +292,7 @@ def conditions(tier):
                                          (name == "Sensitive" and op != "DELETE_ATTRIBUTE")),
                                     bounds="%s (KMIP %d.%d form) of '%s' on a %s holding 0-3 names/groups/app-infos; index "
                                            "in [-2,3] or absent, new text len<=2, flag, current-attribute selector, "
-                                           "request form, stored sensitive flag - symbolic" % (op, v[0], v[1], name, k),
+                                           "request form (2.0 Delete: current / reference / both), stored sensitive flag - symbolic" % (op, v[0], v[1], name, k),
                                     timeout=600, part="attribute"))
     for attr in ("Object Group", "Application Specific Information", "Name"):
         for v in ((1, 4), (2, 0)):
